@@ -13,6 +13,7 @@ Require Import Urcu.Lfq.Lfq.
 Require Import Urcu.Lfht.Lfht.
 Require Import Urcu.Gp.GpMbDyn.
 Require Import Urcu.Progress.ProgressGp.
+Require Import Urcu.Progress.LazyCount.
 Import ListNotations.
 
 (* wfcqueue enqueue: from ANY machine state (whatever the other threads have done or left half done) the caller returns after five of its own steps *)
@@ -118,4 +119,39 @@ Theorem C17_read_side_not_disturbed :
     (forall r' : nat, c <> C_Unlock r' \/ r' <> r) -> pc (rd (step c s) r) = pc (rd s r).
 Proof. exact (@Urcu.Progress.ProgressGp.others_do_not_interfere). Qed.
 Print Assumptions C17_read_side_not_disturbed.
+
+(* rculfhash lazy shrink request (issued inside add / del when the count crosses a threshold): whatever happened before, two consecutive compare-and-swap attempts that meet the same resize_target end the loop - the caller never waits for the resize worker, only for a window in which no other thread changes the target *)
+Theorem C17_lfht_lazy_resize_request_lock_free :
+    forall (pre : list N) (t : N) (post : list N) (size count : N),
+    shrink_run (pre ++ t :: t :: post) size count <> None.
+Proof. exact (@Urcu.Progress.LazyCount.shrink_lock_free). Qed.
+Print Assumptions C17_lfht_lazy_resize_request_lock_free.
+
+(* the number of attempts of a lazy shrink request is at most two more than the number of changes other threads made to resize_target between them *)
+Theorem C17_lfht_lazy_resize_request_attempts :
+    forall (obs : list N) (size count t' : N) (r : res) (n : nat),
+    shrink_run obs size count = Some (t', r, n) -> 1 <= n <= 2 + changes (firstn n obs).
+Proof. exact (@Urcu.Progress.LazyCount.shrink_attempts_bounded). Qed.
+Print Assumptions C17_lfht_lazy_resize_request_attempts.
+
+(* what a lazy resize request does to resize_target when alone: unchanged or the clamped count; changed only together with a launch; a grow request never lowers it, a shrink request never raises it *)
+Theorem C17_lfht_lazy_resize_request_target :
+    forall (auto : bool) (maxb tgt size count : N),
+    (1 <= maxb)%N ->
+    let c := N.min (N.max count 1) maxb in
+    let
+    '(t', r) := lazy_count auto maxb tgt size count in
+    (t' = tgt \/ t' = c) /\
+    (r = Launch -> auto = true /\ t' = c /\ c <> size) /\
+    (t' <> tgt -> r = Launch) /\
+    (auto = true -> (size < c)%N -> (tgt <= t')%N /\ (c <= t')%N) /\
+    (auto = true -> (c < size)%N -> (t' <= tgt)%N).
+Proof. exact (@Urcu.Progress.LazyCount.lazy_count_target). Qed.
+Print Assumptions C17_lfht_lazy_resize_request_target.
+
+(* a request loop that retries with the table's published size instead of the observed target spins for ever on (size 8, target 4, request 2) - the reason the loop carries the observed value *)
+Theorem C17_lfht_retry_with_table_size_refuted :
+    forall n : nat, shrink_run_bad n 8 4 8 2 = None.
+Proof. exact (@Urcu.Progress.LazyCount.retry_with_table_size_refuted). Qed.
+Print Assumptions C17_lfht_retry_with_table_size_refuted.
 
